@@ -286,7 +286,8 @@ OutIdx(proj, e) == IF \E j \in DOMAIN proj : proj[j] = e THEN CHOOSE j \in DOMAI
 PlainPlan(f, S, tab) ==
   IF S.order = <<>> /\ f.lim = -1 /\ f.off = 0
   THEN [shape |-> "Concat", why |-> "", table |-> tab, partial |-> S, final |-> NoFinal, binds |-> TRUE]
-  ELSE IF S.distinct = 0 /\ \E i \in DOMAIN S.order : S.order[i].e.k # "col" \/ OutIdx(S.proj, S.order[i].e) = 0
+  ELSE IF \/ S.distinct = 0 /\ \E i \in DOMAIN S.order : S.order[i].e.k # "col" \/ OutIdx(S.proj, S.order[i].e) = 0
+          \/ S.order # <<>> /\ f.ordform = "qual" /\ f.selform = "alias"      \* `t.k` is matched against the OUTPUT names by its last part
   THEN Refuse("ORDER BY over an expression not in the SELECT list")
   ELSE LET oidx(e) == IF S.distinct = 1 THEN e.i ELSE OutIdx(S.proj, e)
            keep == IF Mutant = "OffsetNotAdded" THEN f.lim ELSE (f.lim + f.off) % U      \* u64 wrapping addition
@@ -446,7 +447,11 @@ ExactOn(q, P, T, D) ==
 KeysOf(data) == IF data = "nullkey" THEN {NULL, 0, 1} ELSE {0, 1}
 ValsOf(data) == IF data = "nullkey" THEN {NULL, 0, 1, 2} ELSE {NULL, 1, 2}
 MaxRows(data) == IF data = "rows3" THEN 3 ELSE 2
-TabsOf(data) == UNION {[1..n -> {<<k, v>> : k \in KeysOf(data), v \in ValsOf(data)}] : n \in 0..MaxRows(data)}
+\* "small": every SEQUENCE of rows (row order decides which of several tied rows a shard keeps); the bigger domains explore
+\* one sequence per multiset (rows in non-decreasing order), placements still range over every assignment of rows to shards
+RowLe(a, b) == a[1] < b[1] \/ (a[1] = b[1] /\ a[2] <= b[2])
+TabsOf(data) == LET all == UNION {[1..n -> {<<k, v>> : k \in KeysOf(data), v \in ValsOf(data)}] : n \in 0..MaxRows(data)}
+                IN IF data = "small" THEN all ELSE {T \in all : \A i \in 1..(Len(T) - 1) : RowLe(T[i], T[i + 1])}
 Tabs == TabsOf(Data)
 DimTabs == IF Tier = "thorough" /\ Data = "small"
            THEN {<<>>, << <<0, 1>> >>, << <<0, 1>>, <<0, 2>>, <<2, 1>> >>, << <<1, 1>>, <<NULL, 2>> >>}
@@ -476,7 +481,9 @@ Pick == /\ c.st = 0
              IF Mode = "emit" THEN Emit(f) /\ c' = [st |-> 9]
              ELSE \E i \in DOMAIN Plans(f) :
                     LET P == Plans(f)[i] IN
-                    c' = [st |-> IF P.shape = "Refuse" /\ Tier # "thorough" THEN 3 ELSE 1, q |-> Stmt(f), p |-> P, usesd |-> UsesD(f)]
+                    \* refusals are judged as gathers for the non-core slices of the thorough space
+                    c' = [st |-> IF P.shape = "Refuse" /\ ~(Tier = "thorough" /\ (f.wrap # "none" \/ f.src # "t" \/ f.sub # "none")) THEN 3 ELSE 1,
+                          q |-> Stmt(f), p |-> P, usesd |-> UsesD(f)]
 Place == /\ c.st = 1
          /\ \E T \in Tabs, D \in Dims(c.usesd) : c' = [st |-> 2, q |-> c.q, p |-> c.p, T |-> T, D |-> D]
 Next == Pick \/ Place
